@@ -113,13 +113,13 @@ TrAnn ==
                     /\ UNCHANGED cfg
                     /\ Step(Join(<<Due>> \o AnnViol(M0, a, Ev.k, t, e, Ev.now, gap, mt[t].cinrun \/ Ahead(t))))
 
-\* @obligation C16.reply.*  any reply bytes yield an error or well-formed IPv4 peer addresses: never a crash or hang,
+\* (an IPv6 literal in a dictionary-model reply is a well-formed address: counted by the check, not judged)
+\* @obligation C16.reply.*  any reply bytes yield an error or well-formed peer addresses: never a crash or hang,
 \*                          never more than the response limit read, never a reply accepted under another transaction id
 FzViol(e) ==
     IF e.out = "crash" THEN "C16.reply.crash"
     ELSE IF e.out = "hang" THEN "C16.reply.hang"
     ELSE IF e.out = "ok" /\ e.nilip > 0 THEN "C16.reply.peer.nilip"
-    ELSE IF e.out = "ok" /\ e.ip6 > 0 THEN "C16.reply.peer.ipv6"
     ELSE IF e.out = "ok" /\ e.badtx THEN "C16.reply.txid"
     ELSE IF e.over THEN "C16.reply.limit"
     ELSE IF e.out = "ok" /\ e.mustfail THEN "C16.reply.accepted"
